@@ -93,7 +93,9 @@ def variants(spec: T, v: Any, ctx: Ctx) -> Iterator[Any]:
     if ob.fields_set and v.present:
         for drop in list(v.present):
             f = next((x for x in all_fields(ob, ctx) if x.name == drop), None)
-            if f is not None and f.optional:
+            if f is not None:
+                # an optional field is left out of the constructor call; a required one is passed and then
+                # unset (unset_fields), as a PATCH-style user would do
                 yield VObj(v.cls, v.kind, dict(v.fields), set(v.present) - {drop}, v.noinit)
 
 
@@ -117,6 +119,9 @@ def build_value(spec: T, v: Any, mod, ctx: Ctx):
             dflt = {f.name: f for f in all_fields(ob, ctx)}
             init_kw = {k: x for k, x in kw.items() if k in v.present or not dflt[k].optional}
             obj = cls(**init_kw)
+            for k in init_kw:
+                if k not in v.present:
+                    apischema.fields.unset_fields(obj, k)
             # values of unset fields that differ from the default: set them without tracking
             for k, x in kw.items():
                 if k not in init_kw and not _same(x, getattr(obj, k, None)):
